@@ -758,7 +758,8 @@ class Sum(Binary):
 
     def __add__(self, value):
         try:
-            self.right.value += index(value)
+            return Sum(self.ebpf, self.left,
+                       Constant(self.ebpf, self.right.value + index(value)))
         except TypeError:
             return super().__add__(value)
 
@@ -766,9 +767,10 @@ class Sum(Binary):
 
     def __sub__(self, value):
         try:
-            self.right.value -= index(value)
+            return Sum(self.ebpf, self.left,
+                       Constant(self.ebpf, self.right.value - index(value)))
         except TypeError:
-            return super().__add__(value)
+            return super().__sub__(value)
 
 
 class AndExpression(Binary):
